@@ -22,9 +22,7 @@ TRUSTED = ['scipy.linalg.null_space is an oracle: its output is validated per ca
            'independent SVD on sets well inside / outside the tolerance',
            'floating-point rounding of the implementation is absorbed in the comparison tolerances (1e-12 entries, '
            '1e-15 for the constructors), not proved']
-ASSUMPTIONS = ['completeness of the GGM basis for general d is a premise (C14_ggm_complete_full is stated, not proved); '
-               'it is checked numerically (rank, reconstruction) for d <= 6 (13 in the thorough tier)',
-               'from_partial theorems are about exact real arithmetic before the final tidyup(); remove_float_errors / '
+ASSUMPTIONS = ['from_partial theorems are about exact real arithmetic before the final tidyup(); remove_float_errors / '
                'tidyup move each component by at most their tolerance (C14_tidyup_close)',
                'util.tensor is modelled as a right-nested chain of Kronecker products (the binary-tree order of the code is '
                'C16); sampled sizes: Pauli n <= 3, GGM d <= 6 (13), from_partial d <= 4']
